@@ -66,8 +66,8 @@ def op_term(o, ok, params=""):
     else:
         k = {"begin": "OBegin", "commit": "OCommit", "rollback": "ORollback"}[o["k"]]
     vp = o["k"] == "stmt" and bool(o.get("args")) and not interpolates(params) and not o.get("prepared")
-    return "{| o_k := %s; o_conn := %d; o_gtx := %s; o_ok := %s; o_vp := %s |}" % (
-        k, CONN.get(o.get("conn", ""), 9), coq_bool(o["gtx"]), coq_bool(ok), coq_bool(vp))
+    return "{| o_k := %s; o_conn := %d; o_gtx := %s; o_ok := %s; o_prep := %s; o_vp := %s |}" % (
+        k, CONN.get(o.get("conn", ""), 9), coq_bool(o["gtx"]), coq_bool(ok), coq_bool(o["k"] == "stmt" and bool(o.get("prepared"))), coq_bool(vp))
 
 
 RES = ("class", "err_class", "affected", "last_id", "columns", "col_types", "rows")
@@ -98,7 +98,7 @@ def case_term(c):
         steps.append("{| ps_op := %s; ps_at := %s; ps_bare := %s; ps_xa := %s; ps_same := %s |}" % (
             op_term(o, b["class"] == "ok", params), evs(a), evs(b), evs(x), coq_bool(sm)))
     if not full:   # a run stopped early: an impossible step makes every comparison fail
-        steps = ['{| ps_op := {| o_k := OBegin; o_conn := 0; o_gtx := false; o_ok := true; o_vp := false |}; ps_at := []; ps_bare := []; '
+        steps = ['{| ps_op := {| o_k := OBegin; o_conn := 0; o_gtx := false; o_ok := true; o_prep := false; o_vp := false |}; ps_at := []; ps_bare := []; '
                  'ps_xa := []; ps_same := false |}']
     return "{| pc_xa := %s; pc_clean := %s; pc_steps := %s |}" % (coq_bool(xa is not None), coq_bool(is_clean(c)), coq_list(steps))
 
